@@ -281,3 +281,72 @@ Example C03_set_only_example :
   binary_op_with_for_all n a op_or [2] = Ok [mkNode 3 0 0; mkNode 3 1 1; mkNode 1 0 1].
 Proof. exact GapsQuant.quant_set_only_example. Qed.
 Print Assumptions C03_set_only_example.
+
+(* ---- the STEP-FAITHFUL explicit-stack machines of the three `while` loops of the nested apply (Model/NestedStack.v: one
+   ostep / istep / cstep = one iteration of the loop body of nested_apply / inner_apply / fix_bdd_alignment; the inner loop
+   runs to completion inside one outer step; `output` variable, outer cache, shared inner cache, node cache as in the Rust).
+   Proofs/NestedStack.v: equal to the faithful recursion of Model/Nested.v for valid operands and two tables that answer on
+   total inputs (no consistency, no or/and shape, any trigger) ---- *)
+From BddVerif Require Import Model.NestedStack Proofs.NestedStack.
+
+Theorem C03_nested_stack_machine_refines : forall A B trig outer inner, wf A -> wf B -> total2 outer -> total2 inner ->
+  nested_apply_stack A B trig outer inner = nested_apply_faithful A B trig outer inner.
+Proof. exact nested_apply_stack_eq. Qed.
+Print Assumptions C03_nested_stack_machine_refines.
+
+Theorem C03_exists_stack_machine_refines : forall b vars, wf b -> bdd_exists_stack b vars = bdd_exists_faithful b vars.
+Proof. exact bdd_exists_stack_eq. Qed.
+Print Assumptions C03_exists_stack_machine_refines.
+
+Theorem C03_for_all_stack_machine_refines : forall b vars, wf b -> bdd_for_all_stack b vars = bdd_for_all_faithful b vars.
+Proof. exact bdd_for_all_stack_eq. Qed.
+Print Assumptions C03_for_all_stack_machine_refines.
+
+Theorem C03_bin_exists_stack_machine_refines : forall a b op vars, wf a -> wf b -> total2 op ->
+  binary_op_with_exists_stack a b op vars = binary_op_with_exists_faithful a b op vars.
+Proof. exact binary_op_with_exists_stack_eq. Qed.
+Print Assumptions C03_bin_exists_stack_machine_refines.
+
+Theorem C03_bin_for_all_stack_machine_refines : forall a b op vars, wf a -> wf b -> total2 op ->
+  binary_op_with_for_all_stack a b op vars = binary_op_with_for_all_faithful a b op vars.
+Proof. exact binary_op_with_for_all_stack_eq. Qed.
+Print Assumptions C03_bin_for_all_stack_machine_refines.
+
+(* the inner loop alone, on any hash-consed store (store_ok: the structural invariant of every state the outer loop reaches) *)
+Theorem C03_inner_stack_machine_refines : forall nv inner s l r, total2 inner -> store_ok nv s ->
+  l < size (nn s) -> r < size (nn s) -> inner_apply_stack inner l r s = inner_apply inner l r s.
+Proof. exact inner_apply_stack_eq. Qed.
+Print Assumptions C03_inner_stack_machine_refines.
+
+(* the copy loop of fix_bdd_alignment alone *)
+Theorem C03_fix_alignment_stack_machine_refines : forall nv G p, sok nv G -> p < size G ->
+  fix_alignment_stack G p = fix_alignment G p.
+Proof. exact fix_alignment_stack_eq. Qed.
+Print Assumptions C03_fix_alignment_stack_machine_refines.
+
+(* the statement of C03_nested / C03_nested_engine_correct, for the machine *)
+Theorem C03_nested_stack_machine_correct : forall A B trig outer inner (u : bool),
+  wf A -> wf B -> nvars A = nvars B -> total2 outer -> consistent2 outer ->
+  builtin_ok inner (if u then andb else orb) ->
+  exists r, nested_apply_stack A B trig outer inner = Ok r /\ Canonical r /\ wf r /\ nvars r = nvars A /\
+    forall v, eval r v = true <->
+      qspec u (triggered_from 0 trig) (fun w => bop_of outer (eval A w) (eval B w)) v.
+Proof. exact nested_stack_correct. Qed.
+Print Assumptions C03_nested_stack_machine_correct.
+
+(* the machines run differently from the recursion (tasks pushed twice, cache hits that only set `output`), and the totality
+   of the INNER table is what makes the inner loop terminate *)
+Example C03_nested_stack_machine_steps_example :
+  let tr := fun x => nth (N.to_nat x) [false; true; true; false] false in
+  let run k := outer_stack_iter nsx_A nsx_B tr op_iff op_or k (Some ([root nsx_A nsx_B], 0, n0 nsx_A)) in
+  let stack_of o := match o with Some (stk, _, _) => stk | None => [] end in
+  let out_of o := match o with Some (_, out, _) => out | None => 0 end in
+  let inner_of o := match o with Some (_, _, s) => ninner s | None => [] end in
+  oempty_o (run 17%nat) = false /\ oempty_o (run 18%nat) = true /\
+  stack_of (run 3%nat) = [(2, 1); (3, 1); (4, 1); (2, 1); (5, 1); (6, 6); (7, 7)] /\
+  stack_of (run 6%nat) = [(2, 1); (5, 1); (6, 6); (7, 7)] /\
+  stack_of (run 7%nat) = [(5, 1); (6, 6); (7, 7)] /\ out_of (run 6%nat) = 1 /\ out_of (run 7%nat) = 2 /\
+  inner_of (run 5%nat) = [] /\ inner_of (run 6%nat) = [((3, 2), 1)] /\
+  match run 18%nat with Some (_, out, s) => nested_run nsx_A nsx_B tr op_iff op_or = Some (out, s) | None => False end.
+Proof. exact nested_stack_example_steps. Qed.
+Print Assumptions C03_nested_stack_machine_steps_example.
